@@ -155,4 +155,7 @@ pub fn run(rc: &mut RunCtx) {
     for l in ["full_contains_master", "error_inside_buffered_master", "unknown_size_buffered_master", "all_subsets"] {
         rc.require_label("rollup", l, 10_000);
     }
+    if !rc.quick() {
+        rc.run_fuzz(Some(STAGES[0]), 300);
+    }
 }
